@@ -20,7 +20,13 @@ func Equal(a Value, b Value) bool {
 	if a.Format().IsList() {
 		return reflect.DeepEqual(a.Value(), b.Value())
 	}
-	return a.(Comparable).Compare(b.(Comparable)) == 0
+	ac, aComparable := a.(Comparable)
+	bc, bComparable := b.(Comparable)
+	if !aComparable || !bComparable {
+		// e.g. bits
+		return reflect.DeepEqual(a.Value(), b.Value())
+	}
+	return ac.Compare(bc) == 0
 }
 
 func EqualVals(a []Value, b []Value) bool {
